@@ -74,7 +74,7 @@ from types import TracebackType
 from typing import BinaryIO
 
 from dulwich.object_format import SHA1
-from dulwich.objects import ObjectID
+from dulwich.objects import ZERO_SHA, ObjectID
 from dulwich.refs import (
     SYMREF,
     Ref,
@@ -1161,6 +1161,19 @@ class ReftableRefsContainer(RefsContainer):
 
         self._update_tables_list()
 
+    @staticmethod
+    def _matches_old_ref(current: bytes | None, old_ref: ObjectID | None) -> bool:
+        """Check the old_ref condition of set_if_equals/remove_if_equals.
+
+        As in the other ref containers, an old_ref of None means
+        unconditionally, and ZERO_SHA means that the ref must not exist.
+        """
+        if old_ref is None:
+            return True
+        if old_ref == ZERO_SHA:
+            return current is None
+        return current == bytes(old_ref)
+
     def set_if_equals(
         self,
         name: Ref,
@@ -1179,8 +1192,7 @@ class ReftableRefsContainer(RefsContainer):
         except KeyError:
             current = None
 
-        old_ref_bytes = bytes(old_ref) if old_ref else None
-        if current != old_ref_bytes:
+        if not self._matches_old_ref(current, old_ref):
             return False
 
         # Update ref
@@ -1222,8 +1234,7 @@ class ReftableRefsContainer(RefsContainer):
         except KeyError:
             current = None
 
-        old_ref_bytes = bytes(old_ref) if old_ref else None
-        if current != old_ref_bytes:
+        if not self._matches_old_ref(current, old_ref):
             return False
 
         self._write_ref_update(bytes(name), REF_VALUE_DELETE, b"")
